@@ -101,6 +101,12 @@ def reconstruct(repo, out_dir, decoy=False):
         'Zone\tAmerica/Port_au_Prince\t-5:00\t-\tVP',
     ]
     links += ['Link\tVerif/Twin1\tVerif/Link-A', 'Link\tVerif/Twin2\tVerif/Link_A']
+    # names longer than any shipped one (last component of exactly 16 and of 40 characters; the longest shipped short
+    # name has 14): whatever a name-handling routine assumes about lengths is put to the test by generated zones
+    zones += [
+        'Zone\tVerif/Sixteen_Chars_16\t1:00\tVerifA\tVS%sT',
+        'Zone\tVerif/Observatory1234_Annex_Building_West_Wing\t-2:00\tVerifA\tVO%sT',
+    ]
     # several reasons on ONE item in EVERY scope (round 8): a zone with two UNTIL times and a STDOFF carrying seconds
     # (truncated under every granularity the configurations use), a policy with two AT times and a SAVE carrying
     # seconds, and a zone that uses it
